@@ -86,6 +86,21 @@ Section Run.
         | _ => (s', [(r, st')])
         end
     end.
+
+  (* session semantics (REPL-like): every statement is attempted; the configuration after
+     each one is recorded.  [stop] = CLI semantics (stop at the first failure). *)
+  Fixpoint run_trace (stop : bool) (s : session) (prog : list stmt)
+    : list (stmt_result * cfg) :=
+    match prog with
+    | [] => []
+    | t :: rest =>
+        let '(s', r) := exec_stmt s t in
+        match r with
+        | RSkip => run_trace stop s' rest
+        | ROk _ => (r, s_cfg s') :: run_trace stop s' rest
+        | _ => (r, s_cfg s') :: (if stop then [] else run_trace stop s' rest)
+        end
+    end.
 End Run.
 
 Definition init_session (inputs : list (string * value)) : session :=
@@ -129,3 +144,7 @@ Definition show_run (sr : session * list (stmt_result * store)) : string :=
   let '(s, rs) := sr in
   let st := fst (s_cfg s) in
   (join "|" (map (fun rs => show_result (snd rs) (fst rs)) rs) ++ ";ENV:" ++ show_env st (snd (s_cfg s)))%string.
+
+Definition show_trace (tr : list (stmt_result * cfg)) : string :=
+  join "|" (map (fun rc => (show_result (fst (snd rc)) (fst rc) ++ ";ENV:" ++
+                            show_env (fst (snd rc)) (snd (snd rc)))%string) tr).
